@@ -42,6 +42,9 @@ func supported(dt val.DT) bool {
 	return false
 }
 
+// TypedLens: (elements in the declared type's own typed field, elements in all other typed fields).
+func TypedLens(tp *onnx.TensorProto) (own, other int) { return typedLens(tp, val.DT(tp.DataType)) }
+
 // typedLen returns the number of elements in the typed field ONNX assigns to dt, and the
 // count of elements in all other typed fields.
 func typedLens(tp *onnx.TensorProto, dt val.DT) (own int, other int) {
@@ -103,6 +106,12 @@ func Decode(tp *onnx.TensorProto) (v *val.V, c Class, why string) {
 	own, other := typedLens(tp, dt)
 	raw := len(tp.RawData)
 	if other > 0 {
+		if own == 0 && raw == 0 && !zero {
+			// nothing at all is stored for the declared element type (onnx.proto ties every typed field to its element
+			// types: double_data "MUST be DOUBLE or COMPLEX128", ...): the declared payload holds 0 of n elements.
+			// Reading the values of another type's field instead is "loaded as different values".
+			return nil, Malformed, "payload-in-foreign-field: no payload for the declared element type, values only in a typed field of another type"
+		}
 		return nil, Unspecified, "a typed field of another element type is populated"
 	}
 	if own > 0 && raw > 0 {
